@@ -1125,6 +1125,11 @@ func extractTagsFromJson(tagsObj []byte, tags *TagsHolder) error {
 			log.Errorf("extractTagsFromJson: failed to parse key %v as string. value=%+v valueType=%+v, err=%v", key, value, valueType, err)
 			return err
 		}
+		if valueType == jp.Number {
+			// Tag values are strings in every query language: a number is kept as its text, so
+			// that "k":5 and "k":"5" give the same tag.
+			valueType = jp.String
+		}
 		tags.Insert(strKey, value, valueType)
 		return nil
 	}
